@@ -633,7 +633,10 @@ impl Check for C19 {
                 }
                 cx.count("replicas_with_fewer_actors");
                 for (id, typ) in &ids {
-                    let Ok(did) = ObjId::try_from(&id.to_bytes()[..]) else { continue };
+                    // the id as the ORIGIN numbers it (its actor-index hint reflects the origin's larger
+                    // actor table), through the byte encoding
+                    let Ok((oid, _)) = others[0].1.import(&id.to_string()).or_else(|_| origin.import(&id.to_string())) else { continue };
+                    let Ok(did) = ObjId::try_from(&oid.to_bytes()[..]) else { continue };
                     // only objects created by a change the smaller replica holds
                     if !created_in(id) {
                         continue;
